@@ -12,6 +12,8 @@ for f in ["CodeEXPECT", "CodeENDEXPECT", "AsmErrPassInit", "AsmErrPassExit"]:
     GROUPS.append(G("err_" + f, SRC, "h_" + f, enforce=[], replace=["WrErrorString"], link=["asmdef.c"], unwind=12, timeout=600,
                     defs=["-DSTRINGSIZE=64"], functions=[f],
                     bounded="at most 3 announced numbers / 3 EXPECT arguments (loops unwound); WrErrorString replaced by its contract"))
+GROUPS.append(G("usr_user_diagnostics", "harness/C10/h_asmallg.c", "h_user_diagnostics", enforce=[], link=["asmdef.c", "tempresult.c"], stubs=["stubs/gerr.c"], unwind=8, timeout=600, dfcc=False, drop_unused=True,
+                object_bits=12, defs=["-DVERIF_USERMSG"], functions=["CodeWARNING", "CodeERROR", "CodeFATAL", "CodeMESSAGE"]))
 GROUPS.append(G("as_AssembleFile", "harness/C02/h_as.c", "h_AssembleFile", enforce=[],
                 replace=["AssembleFile_InitPass", "AssembleFile_ExitPass", "ProcessFile", "AssembleFile_WrSummary"],
                 link=["asmdef.c"], loops=True, unwind=12, timeout=900, defs=["-DSTRINGSIZE=64"], functions=["AssembleFile"], object_bits=12,
@@ -19,7 +21,7 @@ GROUPS.append(G("as_AssembleFile", "harness/C02/h_as.c", "h_AssembleFile", enfor
 TRUSTED_BASE = ["ghost output channels (WrLstLine / error file fprintf / WrConsoleLine count lines)", "exit() monitor", "string helpers replaced by bounded-write stubs",
                 "message catalogue returns some NUL-terminated string of <= 3 characters"]
 ASSUMPTIONS = ["fewer than 2^32 - 1 diagnostics per pass (counters are 32 bit after fix)"]
-NOT_COVERED = ["main (option parsing; the final `return GlobErrFlag ? 2 : 0`)", "CodeERROR/CodeWARNING/CodeFATAL routing", "ChkIO/ChkXIO error reports inside AssembleFile (assumed silent)"]
+NOT_COVERED = ["main (option parsing; the final `return GlobErrFlag ? 2 : 0`)", "ChkIO/ChkXIO error reports inside AssembleFile (assumed silent)"]
 EXPLANATION = ""
 
 MANIFEST = dict(
